@@ -58,7 +58,7 @@ def gen_plan(rng, tier, index):
     rng.shuffle(events)
     plan = {'mode': mode, 'shape': shape, 'bits': bits, 'radius': rng.pick(RADII), 'threshold': rng.pick(THRESH),
             'events': events, 'method': rng.pick(['euclidean', 'correlation', 'euclidean', 'correlation', 'mahalanobis', 'crossnobis', 'poisson']),
-            'mask_dtype': rng.pick(['bool', 'bool', 'int8', 'float64', 'int64']), 'containers': rng.pick([0, 0, 1, 2, 3, 4]), 'events_as': rng.pick(['list', 'array']),
+            'mask_dtype': rng.pick(['bool', 'bool', 'int8', 'float64', 'int64']), 'containers': rng.pick([0, 0, 1, 2, 3, 4]), 'peek': rng.chance(0.3), 'events_as': rng.pick(['list', 'array']),
             'sched': {'n_jobs': rng.pick([1, 2, 3, 4, 8, 16, -1]), 'batch': rng.randint(1, 4),
                       'policy': rng.pick(['random', 'random', 'lifo', 'fifo']),
                       'straggler': rng.pick([None, None, 0, 1, 5]), 'seed': rng.randrange(10 ** 9)},
@@ -400,6 +400,9 @@ def execute(plan, ctx):
         x = sl_ok[i]
         reference.append({'voxel': int(np.asarray(x.rdm_descriptors['voxel_index']).ravel()[0]),
                           'evals': np.array(eval_fixed(models, x, method=em, theta=theta).evaluations, copy=True)})
+    if plan.get('peek'):
+        for _ in sl_ok:                # an earlier look at the first searchlight: an iteration abandoned after one item
+            break
     s = plan['sched']
     outs = {}
     sched = Scheduler(ctx, s['seed'], policy=s['policy'], batch_size=s['batch'], straggler=s['straggler'])
